@@ -73,7 +73,7 @@ func OpenKeyed(cfg Config, seed string, mk MasterKeys) (*Store, error) {
 			if err != nil {
 				return nil, err
 			}
-			return filesystem.NewCustomFilesystemKeyStore().KeyDirectory(s.Dir).Storage(fs).Encryptor(enc).CacheSize(cache).Build()
+			return filesystem.NewCustomFilesystemKeyStore().KeyDirectory(s.Cfg.spell(s.Dir)).Storage(fs).Encryptor(enc).CacheSize(cache).Build()
 		}
 		var mainFS filesystem.Storage = s.rawFS
 		if s.Mem != nil {
